@@ -881,6 +881,11 @@ func cmdRun(id, tier string, seedOverride *uint64, runsOverride int) int {
 		fmt.Fprintln(os.Stderr, "check: no run completed")
 		return 2
 	}
+	if exit == 0 && agg.nontrivial*4 < agg.n {
+		// a batch in which the system under test did (almost) nothing decides nothing: machinery trouble, not a pass
+		fmt.Fprintf(os.Stderr, "check: MACHINERY: vacuous exploration: only %d of %d runs exercised the server (datagrams handled, operations applied)\n", agg.nontrivial, agg.n)
+		return 2
+	}
 	return exit
 }
 
@@ -1028,14 +1033,14 @@ func realComponents(sp *spec) []string {
 	if sp.Engine == "allocsim" {
 		return []string{"plugins/allocators/bitmap (both allocators, instrumented working tree)", "plugins/allocators (ipcalc, errors)", "bits-and-blooms/bitset"}
 	}
-	return []string{"server.Serve/HandleMsg4/HandleMsg6/sendEthernet (instrumented working tree)", "plugins.LoadPlugins and every configured plugin", "allocators", "config.Load", "logger", "insomniacslk/dhcp codec", "database/sql + mattn/go-sqlite3 (real file on tmpfs)", "gopacket"}
+	return []string{"server.Start/listen4/listen6/Serve/HandleMsg4/HandleMsg6/sendEthernet/Wait/Close (instrumented working tree)", "plugins.LoadPlugins and every configured plugin", "allocators", "config.Load", "logger", "insomniacslk/dhcp codec", "database/sql + mattn/go-sqlite3 (real file on tmpfs)", "gopacket"}
 }
 
 func stubComponents(sp *spec) []string {
 	if sp.Engine == "allocsim" {
 		return []string{"caller tasks and operation generator", "sync.Mutex -> simrt.Mutex (wraps the real mutex)", "goroutine scheduling (simrt cooperative scheduler)"}
 	}
-	return []string{"sockets (listen4/listen6/Start wiring replaced by simulated listeners; ReadFrom/WriteTo shadowed)", "DHCP clients, relays, mutator, operator", "clock (simrt)", "sync.Mutex/RWMutex/Pool -> simrt wrappers", "os.ReadFile + fsnotify -> in-memory file system and inotify model", "AF_PACKET socket syscalls", "interface table", "sqlite fault table (wrapping driver)"}
+	return []string{"UDP sockets: server4.NewIPv4UDPConn/server6.NewIPv6UDPConn and ipv4/ipv6.PacketConn replaced by simulated sockets (bind, SO_BINDTODEVICE, SetControlMessage -> packet info on ReadFrom, JoinGroup recorded)", "DHCP clients, relays, mutator, operator", "clock (simrt)", "sync.Mutex/RWMutex/Pool -> simrt wrappers", "os.ReadFile + fsnotify -> in-memory file system and inotify model", "AF_PACKET socket syscalls", "interface table", "sqlite fault table (wrapping driver)"}
 }
 
 func writeEvidence(id string, ev *evidence) {
